@@ -19,6 +19,9 @@ type Ctx struct {
 	Tier string
 	// errLenient: see errFate (set while the HTTP handlers' error handling is examined)
 	errLenient bool
+	// idxOnlyLenMinus: parserIndex decides only the len(x)-k clause (packages whose fixed-position
+	// slices are of values with a length the type system does not show, such as a hex digest)
+	idxOnlyLenMinus bool
 }
 
 // Registry maps property ids to their checks.
@@ -53,6 +56,7 @@ func Run(prop string, c *Ctx) bool {
 		return false
 	}
 	paramActual = c.P.Actual
+	eng.SliceActuals = c.P.ActualsOf
 	// a rule that panics on code it does not expect must fail its property, not the process:
 	// the evidence is still written and the other properties still run
 	func() {
